@@ -328,7 +328,7 @@ class Ctor:
     HEADER = ('From DA Require Import Prelude NDArray Array PyRT.\nFrom DA.Model Require Import Value Reshape Construct.\nOpen Scope string_scope.\n')
     RUNNER = 'ccase_ok'
     SHOW = 'ccase_show'
-    FORMS = ['lists_dims', 'labels_dims', 'pairs', 'axisobjs', 'dict_dims', 'dims_only', 'nothing', 'zeros', 'ones', 'empty_shape', 'nested', 'nested_labels']
+    FORMS = ['lists_dims', 'labels_dims', 'pairs', 'axisobjs', 'dict_dims', 'dict_nodims', 'dims_only', 'nothing', 'zeros', 'ones', 'empty_shape', 'nested', 'nested_labels']
     BAD = ['shape_mismatch', 'dup_names', 'empty_name', 'nonstr_name', 'wrong_ndims', 'too_many_dims']
 
     @staticmethod
@@ -339,9 +339,9 @@ class Ctor:
             a = rand_array(rng, ndim=nd, minlen=1, maxlen=3, dtype=rng.choice(['f', 'i']), kinds=('i', 'f', 'O'))
             form = rng.choice(Ctor.FORMS); bad = rng.choice(Ctor.BAD) if rng.random() < 0.3 and nd >= 1 else None
             if bad == 'too_many_dims': form = rng.choice(['dims_only', 'empty_shape', 'dict_dims', 'lists_dims', 'labels_dims'])
-            elif bad and form in ('dims_only', 'nothing', 'zeros', 'ones', 'empty_shape', 'nested', 'nested_labels'): form = rng.choice(['lists_dims', 'pairs', 'axisobjs', 'dict_dims'])
+            elif bad and form in ('dims_only', 'nothing', 'zeros', 'ones', 'empty_shape', 'nested', 'nested_labels'): form = rng.choice(['lists_dims', 'pairs', 'axisobjs', 'dict_dims', 'dict_nodims'])
             if form in ('nested', 'nested_labels') and nd != 2: form = 'lists_dims'
-            if form == 'dict_dims' and nd == 0: form = 'lists_dims'
+            if form in ('dict_dims', 'dict_nodims') and nd == 0: form = 'lists_dims'
             stats['ctor_form'][form] += 1; stats['ctor_bad'][str(bad)] += 1
             dims = list(a['dims']); labels = [list(l) for l in a['labels']]
             if bad == 'shape_mismatch':
@@ -370,6 +370,7 @@ class Ctor:
         if f == 'dict_dims':
             items = list(zip(dims, L)); random.Random(len(dims)).shuffle(items)
             return D.DimArray(vals, axes=dict(items), dims=dims)
+        if f == 'dict_nodims': return D.DimArray(vals, dict(zip(dims, L)))      # no dims=: the order of the dict (the class docstring example)
         if f == 'dims_only': return D.DimArray(vals, dims=dims)
         if f == 'nothing': return D.DimArray(vals)
         if f == 'zeros': return D.zeros(axes=L, dims=dims)
@@ -412,6 +413,9 @@ class Ctor:
             items = list(zip(dims, labels, kinds)); random.Random(len(dims)).shuffle(items)
             if len(set(map(str, dims))) != len(dims): return None      # a dict cannot hold a duplicate key
             sp = '(SDict %s %s)' % (cq_list(['(%s, %s)' % (dn(d), ls(l, k)) for d, l, k in items]), cq_list([dn(d) for d in dims]))
+        elif f == 'dict_nodims':
+            if len(set(map(str, dims))) != len(dims): return None      # a dict cannot hold a duplicate key
+            sp = '(SDict %s %s)' % (cq_list(['(%s, %s)' % (dn(d), ls(l, k)) for d, l, k in zip(dims, labels, kinds)]), cq_list([dn(d) for d in dims]))
         elif f == 'dims_only': sp = '(SDimsOnly %s)' % cq_list([dn(d) for d in dims])
         elif f == 'nothing': sp = 'SNothing'
         elif f in ('zeros', 'ones'):
@@ -430,7 +434,7 @@ class Ctor:
         if bad in ('shape_mismatch', 'wrong_ndims', 'too_many_dims'):
             return None if res[0] == 'err' else 'data whose shape disagrees with the axes was accepted (%s, form %s)' % (bad, f)
         if bad == 'dup_names':
-            if f == 'dict_dims': return None
+            if f in ('dict_dims', 'dict_nodims'): return None
             return None if res[0] == 'err' else 'duplicate dimension names were accepted'
         if bad in ('empty_name', 'nonstr_name'):
             return None if res[0] == 'err' else 'an empty / non-string dimension name was accepted'
